@@ -381,5 +381,24 @@ def _roundtrip_archive(chk, src):
                    f"read() works on {loaded.attrs['metadata'].attrs.get('_path')} (new directories {newdirs[:2]}), readonly={lacc.get('readonly')}, "
                    f"archive path {lacc.get('path')}; required a fresh extraction directory, read-only, bound to the archive",
                    where=ekoc.methods["read"].where, instance="read-state")
+        # an edit session opened through a RELATIVE path, the process changing its working directory before the session ends: what was
+        # stored in the session must end up in the archive that was opened (the object has to remember where that archive is)
+        fs.path("/elsewhere").mkdir()
+        fs.cwd = "/out"
+        session = pe.apply(pe.getattr(ClassRef(ekoc), "edit"), [fs.path("archive.tar")], {})
+        ep_new = (Fraction(400), 5)
+        op_new = operator("D", True)
+        pe.apply(_bound(pe, session, ekoc.methods["__setitem__"]), [ep_new, op_new], {})
+        fs.cwd = "/elsewhere"
+        pe.apply(_bound(pe, session, ekoc.methods["close"]), [], {})
+        fs.cwd = "/"
+        stray = [p_ for p_ in fs.files if p_.startswith("/elsewhere")]
+        again = pe.apply(pe.getattr(ClassRef(ekoc), "read"), [fs.path("/out/archive.tar")], {})
+        kept = [tuple(x) if isinstance(x, (tuple, list)) else x for x in pe.iterate(again)]
+        chk.decide(not stray and sorted(map(str, kept)) == sorted(map(str, eps + [ep_new])), "archive-holds-the-whole-directory", ekoc.methods["read"].qname,
+                   f"edit session opened as `archive.tar` from /out, working directory changed to /elsewhere before close(): the archive then holds "
+                   f"{[tuple(map(str, k)) for k in kept]}, files written elsewhere: {stray}; required: the point stored in the session is in "
+                   f"/out/archive.tar and nothing is written elsewhere (the archive path has to be made absolute when the EKO is opened)",
+                   where=ekoc.methods["read"].where, instance="relative-path-session", how="PE on a model file system with a working directory")
     except PERaise as e:
         chk.fail("archive-holds-the-whole-directory", ekoc.qname, f"the EKO-level round trip raises {e}; files {sorted(fs.files)[:8]}", where=ekoc.where)
